@@ -7,6 +7,19 @@ import subprocess
 ROOT = os.path.dirname(os.path.dirname(os.path.abspath(__file__)))
 
 CHECKS = {
+    "C06": ("fault_enumeration",
+            "exhaustive enumeration of task outcomes x git states under the virtual kernel, and of every crash point (distinct on-disk state between two Python lines) of the last command of short histories with chained restart",
+            "Outcome part: rows added = experiments whose process exited 0, with HEAD hash and dirty flag, over all small graphs x failing "
+            "subsets x completion orders. Crash part: every distinct on-disk state during run/archive/restore/gc (copied = what survives "
+            "kill -9) satisfies 'row => directory + DONE marker + args/options records' after SQLite recovery, and again after one more command.",
+            "Trusted: SQLite atomic commit, kernel rename/mkdir atomicity; line granularity in Conductor/shutil/json frames.",
+            "DESIGN.md §4 C06, §2 E5"),
+    "C10": ("exploration",
+            "exhaustive enumeration of byte strings x all short-read splits through the real tee code, chunk interleavings in both record modes under the virtual kernel, record values, plus real-process runs",
+            "All byte strings <=5 (6) over 4 symbols x all 2^(n-1) read1 splits through the real TeeProcessor; all interleavings of <=2 chunks "
+            "per stream (incl. > pipe buffer) in sequential and slot mode; all args/options records; real cond runs with real pipes up to 1 MiB.",
+            "'Any length' covered up to the listed sizes only.",
+            "DESIGN.md §4 C10"),
     "C16": ("fault_enumeration",
             "exhaustive fault injection: ConductorAbort raised at every executed line of Conductor code for every deviation-0 schedule of each scenario, under the virtual kernel",
             "For each scenario and completion order the run is repeated once per line event (~3-5k points) with the abort raised at that "
